@@ -1220,4 +1220,60 @@ theorem inv_runEdits {L : KV} {s : Props} (h : Inv L s) (es : List Edit) : Inv L
     | some v => exact inv_set h k v
     | none => exact inv_delete h k
 
+/-! ### consumers -/
+
+/-- the full form: stored map overlaid with the WHOLE current map, minus the deleted keys -/
+theorem inv_reproduces_full {L : KV} {s : Props} (h : Inv L s) (k : Key) :
+    lookup (applyDelta L s.m s.del) k = lookup s.m k := by
+  unfold applyDelta
+  rw [lookup_eraseAll, lookup_overlay]
+  by_cases hd : k ∈ s.del
+  · rw [if_pos hd, h.delDom k hd]
+  · rw [if_neg hd]
+    cases hv : lookup s.m k with
+    | some v => rfl
+    | none =>
+      simp only
+      have hm : k ∉ s.mod := fun hh => h.modDom k hh hv
+      rw [← h.untouched k hm hd, hv]
+
+theorem kinv_reproduces_full {L : List Kind} {e : Ent} (h : KInv L e) (k : Kind) :
+    k ∈ applyKinds L e.kinds e.removed ↔ k ∈ e.kinds := by
+  unfold applyKinds
+  rw [List.mem_filter, List.mem_append]
+  have h1 := h.disj k; have h2 := h.addedIn k; have h3 := h.removedOut k; have h4 := h.untouched k
+  simp only [Bool.not_eq_true', List.contains_eq_mem, decide_eq_false_iff_not]
+  grind
+
+theorem sentProps_reproduces {L : KV} {s : Props} (h : Inv L s) (r : List Nat)
+    (ht : propsTouched r = true) (hok : propsPartOk r = true) (k : Key) :
+    lookup (applyDelta L (sentProps r s).1 (sentProps r s).2) k = lookup s.m k := by
+  unfold propsPartOk at hok
+  rw [ht] at hok
+  simp only [Bool.not_true, Bool.false_or, Bool.and_eq_true, Bool.not_eq_true', Bool.or_eq_false_iff,
+    Bool.or_eq_true] at hok
+  obtain ⟨_, h4, h35⟩ := hok
+  unfold sentProps
+  simp only [h4, if_true]
+  by_cases h3 : r.contains 3 = true
+  · simp only [h3, if_true]; exact inv_reproduces h k
+  · have h5 : r.contains 5 = true := h35.resolve_left h3
+    simp only [h3, h5, if_true, Bool.false_eq_true, if_false]
+    exact inv_reproduces_full h k
+
+theorem sentKinds_reproduces {L : List Kind} {x : Ent} (h : KInv L x) (r : List Nat)
+    (ht : kindsTouched r = true) (hok : kindsPartOk r = true) (k : Kind) :
+    k ∈ applyKinds L (sentKinds r x).1 (sentKinds r x).2 ↔ k ∈ x.kinds := by
+  unfold kindsPartOk at hok
+  rw [ht] at hok
+  simp only [Bool.not_true, Bool.false_or, Bool.and_eq_true, Bool.or_eq_true] at hok
+  obtain ⟨h1, h02⟩ := hok
+  unfold sentKinds
+  simp only [h1, if_true]
+  by_cases h0 : r.contains 0 = true
+  · simp only [h0, if_true]; exact kinv_reproduces h k
+  · have h2 : r.contains 2 = true := h02.resolve_left h0
+    simp only [h0, h2, if_true, Bool.false_eq_true, if_false]
+    exact kinv_reproduces_full h k
+
 end Dawgs.C12
